@@ -224,19 +224,26 @@ def _expand_handler(fn, h):
     while getattr(mod, "_parent", None) is not None:
         mod = mod._parent
     defs = {f.name: f for f in getattr(mod, "body", []) if isinstance(f, ast.FunctionDef)}
-    out = []
+    body = list(h.body)
     changed = False
-    for st in h.body:
-        if isinstance(st, ast.Expr) and isinstance(st.value, ast.Call) and isinstance(st.value.func, ast.Name) and st.value.func.id in defs \
-                and st.value.func.id not in _HANDLER_CALLS:
-            g = defs[st.value.func.id]
-            simple = not any(isinstance(x, (ast.For, ast.While, ast.Try, ast.With, ast.Return, ast.Yield, ast.Await)) and not (isinstance(x, ast.Return) and x.value is None)
-                             for x in ast.walk(g))
-            if simple and g is not fn:
-                out += [b for b in g.body if not (isinstance(b, ast.Expr) and isinstance(b.value, ast.Constant))]
-                changed = True
-                continue
-        out.append(st)
+    for _round in range(3):         # helpers of helpers (a reporting helper that calls a guard helper), bounded
+        out = []
+        again = False
+        for st in body:
+            if isinstance(st, ast.Expr) and isinstance(st.value, ast.Call) and isinstance(st.value.func, ast.Name) and st.value.func.id in defs \
+                    and st.value.func.id not in _HANDLER_CALLS:
+                g = defs[st.value.func.id]
+                simple = not any(isinstance(x, (ast.For, ast.While, ast.Try, ast.With, ast.Return, ast.Yield, ast.Await)) and not (isinstance(x, ast.Return) and x.value is None)
+                                 for x in ast.walk(g))
+                if simple and g is not fn:
+                    out += [b for b in g.body if not (isinstance(b, ast.Expr) and isinstance(b.value, ast.Constant))]
+                    changed = again = True
+                    continue
+            out.append(st)
+        body = out
+        if not again:
+            break
+    out = body
     if not changed:
         return h
     h2 = ast.ExceptHandler(type=h.type, name=h.name, body=out)
